@@ -28,7 +28,7 @@ from pytreenet.ttns.ttndo import SymmetricTTNDO, from_ttns
 from pytreenet.core.ttn import TreeTensorNetwork
 from pytreenet.contractions.ttndo_contractions import ttndo_contraction_order
 
-IMPORTS = ("From Coq Require Import List Arith String. From PTN Require Import Tree.RTree TTNDO.Sym. "
+IMPORTS = ("From Coq Require Import List Arith String ZArith. From PTN Require Import Tree.RTree TTNDO.Sym. "
            "From PTN Require TTN.Store. Import ListNotations.")
 KSUF, BSUF = "_ket", "_bra"
 K_LOOP, K_EMPTY, K_SUFFIX = "C16-tp-loop-deepcopy", "C16-tp-empty", "C16-id-contains-ket-suffix"
@@ -269,6 +269,10 @@ class C16(Prop):
                 sites = rng.sample(range(n), m)
                 cases.append(dict(st, op="tp", sites=sites, oseed=rng.randrange(10 ** 9),
                                   via=("single" if (m == 1 and rng.random() < 0.5) else "operator")))
+        # malformed inputs: both sides must reject (non-positive root bond dimension, empty state)
+        for k in (0, -1, -3, 1, 2):
+            for empty in (False, True):
+                cases.append({"op": "reject", "k": k, "empty": empty})
         # identifier strings
         alphabet = "ab_ketbra_KET.- 1"
         for _ in range(ctx.scale(6, 40) * budget_scale):
@@ -292,7 +296,7 @@ class C16(Prop):
         return cases
 
     def nontrivial(self, case):
-        if case["op"] == "ids":
+        if case["op"] in ("ids", "reject"):
             return True
         return len(case["parents"]) >= 2 or case["op"] in ("ttno", "tp")
 
@@ -300,7 +304,7 @@ class C16(Prop):
         c = Counter()
         for x in cases:
             c["op:" + x["op"]] += 1
-            if x["op"] != "ids":
+            if x["op"] not in ("ids", "reject"):
                 c[f"nodes={len(x['parents'])}"] += 1
                 c[f"k={x['k']}"] += 1
                 c["names:" + x["variant"]] += 1
@@ -333,6 +337,17 @@ class C16(Prop):
                 rows.append([d.ket_id(s), d.bra_id(s), guard(d.reverse_ket_id, s), guard(d.reverse_bra_id, s),
                              guard(d.ket_to_bra_id, s), guard(d.bra_to_ket_id, s), s.endswith(case["ksuf"])])
             return {"rows": rows}
+        if op == "reject":
+            st = TTNS()
+            if not case["empty"]:
+                st.add_root(Node(identifier="n0"), np.array([1.0 + 2.0j, 0.5]))
+            try:
+                from_ttns(st, root_bond_dim=case["k"])
+                return {"code": 0}
+            except ValueError as e:
+                return {"code": 1, "msg": str(e)}
+            except KeyError as e:
+                return {"code": 2, "msg": str(e)}
         ttns, ref, ttndo = self._setup(case)
         names = case["names"]
         ids = list(names)                        # dense axis order = node index order
@@ -434,7 +449,7 @@ class C16(Prop):
     def model(self, ctx, cases, obs):
         exprs, where = [], []
         for i, (c, ob) in enumerate(zip(cases, obs)):
-            if isinstance(ob, dict) and "exception" in ob and c["op"] in ("build", "ids"):
+            if isinstance(ob, dict) and "exception" in ob and c["op"] in ("build", "ids", "reject"):
                 continue
             if c["op"] == "build":
                 t = coq_rtree(ob["rtree"])
@@ -443,13 +458,19 @@ class C16(Prop):
                 where.append((i, "obs"))
                 exprs.append(f"Store.observe (fst (from_ttns_store {args}))")
                 where.append((i, "store"))
-                tail = f"{coq_string(c['root_id'])} {coq_string(KSUF)} {coq_string(BSUF)} {coq_names(c['names'])} {t}"
+                nameargs = f"{coq_string(c['root_id'])} {coq_string(KSUF)} {coq_string(BSUF)} {coq_names(c['names'])}"
+                exprs.append(f"map (fun r => (code (dn_id r), name_of {nameargs} (dn_id r))) (doubled {args})")
+                where.append((i, "names"))
+                tail = f"{nameargs} {t}"
                 exprs.append(f"(map code (contraction_order_s true {tail}), map code (contraction_order_s false {tail}))")
                 where.append((i, "order"))
             elif c["op"] == "tp":
                 nodes = coq_list(c["sites"], coq_nat)
                 exprs.append(f"(tp_obs false false {nodes}, tp_obs true true {nodes})")
                 where.append((i, "tp"))
+            elif c["op"] == "reject":
+                exprs.append(f"from_ttns_guard ({int(c['k'])})%Z {'None' if c['empty'] else '(Some (RNode 0%nat []))'}")
+                where.append((i, "guard"))
             elif c["op"] == "ids":
                 ks, bs = coq_string(c["ksuf"]), coq_string(c["bsuf"])
                 rows = []
@@ -488,6 +509,10 @@ class C16(Prop):
             if op == "tp" and case.get("variant") == "suffix":
                 return None             # outside the stated precondition (the oracle decides, see _suffix_gate)
             return f"implementation raised {ob['exception']} where the model runs"
+        if op == "reject":
+            if ob["code"] != mo["guard"]:
+                return f"from_ttns(k={case['k']}, empty={case['empty']}): impl outcome {ob} model {mo['guard']} (0 accept, 1 ValueError, 2 KeyError)"
+            return None
         if op == "ids":
             rows_m = mo["ids"]
             for s, ri, rm in zip(case["strings"], ob["rows"], rows_m):
@@ -496,10 +521,13 @@ class C16(Prop):
                     return f"identifier functions on {s!r} (suffixes {case['ksuf']!r},{case['bsuf']!r}): impl {ri} model {rm}"
             return None
         if op == "build":
-            table = self._name_table(case)
+            # identifier strings as the model's name_of produces them (not re-derived here)
+            table = [None] * (2 * len(case["names"]) + 3)
+            for c, name in mo["names"]:
+                table[c] = name
 
             def nm(c):
-                return table[c] if c < len(table) else f"?{c}"
+                return table[c] if c < len(table) and table[c] is not None else f"?{c}"
             (recs, order, eye, pad, (store_ok, wires_ok)) = mo["obs"]
             self._inst[0] += 2
             self._inst[1] += int(bool(store_ok)) + int(bool(wires_ok))
@@ -572,7 +600,7 @@ class C16(Prop):
 
     def oracle(self, case, ob):
         op = case["op"]
-        if op in ("ids", "build"):
+        if op in ("ids", "build", "reject"):
             if "exception" in ob:
                 return f"{op}: raised {ob['exception']}"
             return None
